@@ -1,5 +1,31 @@
-"""Bounded stand-ins (labelled bounded; never counted as proved)."""
+"""Bounded stand-ins (labelled bounded; never counted as proved).  Each runs natively on a scratch
+pure-Python copy of the working tree under /venv/bin/python and reports its bound and counts."""
+import json
+import os
+import shutil
+import subprocess
+import time
+
+HERE = os.path.dirname(os.path.abspath(__file__))
 
 
 def run(sb, pid, tier, seed):
-    raise NotImplementedError(sb)
+    import props
+    name = sb["name"]
+    t0 = time.time()
+    d = props.scratch_copy()
+    try:
+        env = dict(os.environ, PYTHONPATH=d, PYTHONDONTWRITEBYTECODE="1", VERIF_SEED=str(seed), VERIF_TIER=tier)
+        p = subprocess.run(["/venv/bin/python", os.path.join(HERE, "bounded_impl", name + ".py")],
+                           capture_output=True, text=True, env=env, cwd=d, timeout=1500)
+        try:
+            out = json.loads(p.stdout.strip().splitlines()[-1])
+        except Exception:
+            out = {"name": name, "bound": "?", "cases": 0, "violations": [],
+                   "error": (p.stdout[-300:] + p.stderr[-800:])}
+        out.setdefault("name", name)
+        out["label"] = "bounded stand-in (not proved)"
+        out["wall_s"] = round(time.time() - t0, 2)
+        return out
+    finally:
+        shutil.rmtree(d, ignore_errors=True)
